@@ -292,6 +292,7 @@ c.raises(('IndexError', 'struct.error', 'exceptions.ReadValueError'),
 c.ensures("old(istream.buffer) == self.value + zeros(pad_len(len(self.value))) + istream.buffer",
           name="consumed-is-padded-value")
 c.ensures("len(self.value) == self.length", name="length")
+c.ensures("self.padding_length == pad_len(self.length)", name="representation-invariant")
 c.modifies("istream.buffer", "self.value", "self.padding_length")
 
 c = contract(P + "ByteString.read").props('C01', 'C02')
@@ -303,7 +304,26 @@ c.raises(DECODE_ERRORS + ('IndexError',),
               "== zeros(pad_len(be_int(istream.buffer[4:8]))))")
 c.ensures("old(istream.buffer) == enc_byte_string(self.tag, self.value) + istream.buffer",
           name="consumed-is-encoding")
+c.ensures("self.length == len(self.value) and self.padding_length == pad_len(len(self.value))",
+          name="representation-invariant")
 c.modifies("istream.buffer", "self.value", "self.length", "self.padding_length")
+
+# the writers are also proved for *any* object that satisfies the representation invariant (which
+# __init__ and read establish), not only for freshly constructed ones: a decoded value re-encodes
+INV = "self.length == len(self.value) and self.padding_length == pad_len(len(self.value))"
+c = contract(P + "ByteString.write_value", variant="any-valid-object").props('C01', 'C02')
+c.args(self=BYTESTR_RAW, ostream=STREAM, kmip_version=KV)
+c.requires(INV)
+c.loop(0, "ostream.buffer == old(ostream.buffer) + done", modifies=["ostream.buffer"])
+c.ensures("ostream.buffer == old(ostream.buffer) + self.value + zeros(pad_len(len(self.value)))")
+c.modifies("ostream.buffer")
+c = contract(P + "ByteString.write", variant="any-valid-object").props('C01', 'C02')
+c.args(self=BYTESTR_RAW, ostream=STREAM, kmip_version=KV)
+c.requires(INV)
+c.use_variant("any-valid-object")
+c.raises('exceptions.WriteOverflowError', when="len(self.value) >= 4294967296")
+c.ensures("ostream.buffer == old(ostream.buffer) + enc_byte_string(self.tag, self.value)", name="spec-encoding")
+c.modifies("ostream.buffer")
 
 # ---- TextString.  KMIP text strings are UTF-8; this implementation packs one
 # byte per *character* ('!c' of char.encode()), so only code points < 128 are
@@ -344,6 +364,7 @@ c.raises(TEXT_DECODE_ERRORS)
 c.ensures("old(istream.buffer) == text_bytes(self.value) + zeros(pad_len(len(self.value))) + istream.buffer",
           name="consumed-is-padded-value")
 c.ensures("len(self.value) == self.length and forall_elems(self.value, 0, 127)", name="length-ascii")
+c.ensures("self.padding_length == pad_len(self.length)", name="representation-invariant")
 c.modifies("istream.buffer", "self.value", "self.padding_length")
 
 c = contract(P + "TextString.read").props('C01', 'C02')
@@ -352,7 +373,25 @@ c.raises(TEXT_DECODE_ERRORS)
 c.ensures("old(istream.buffer) == enc_text_string(self.tag, self.value) + istream.buffer",
           name="consumed-is-encoding")
 c.ensures("forall_elems(self.value, 0, 127)", name="ascii")
+c.ensures("self.length == len(self.value) and self.padding_length == pad_len(len(self.value))",
+          name="representation-invariant")
 c.modifies("istream.buffer", "self.value", "self.length", "self.padding_length")
+
+TEXT_RAW_ASCII = ('obj', P + 'TextString', {'value': 'ascii', 'tag': TAGS, 'type': ('const', 'T:TEXT_STRING'),
+                                            'length': 'nat', 'padding_length': 'nat'})
+c = contract(P + "TextString.write_value", variant="any-valid-object").props('C01', 'C02')
+c.args(self=TEXT_RAW_ASCII, ostream=STREAM, kmip_version=KV)
+c.requires(INV)
+c.loop(0, "ostream.buffer == old(ostream.buffer) + text_bytes(done)", modifies=["ostream.buffer"])
+c.ensures("ostream.buffer == old(ostream.buffer) + text_bytes(self.value) + zeros(pad_len(len(self.value)))")
+c.modifies("ostream.buffer")
+c = contract(P + "TextString.write", variant="any-valid-object").props('C01', 'C02')
+c.args(self=TEXT_RAW_ASCII, ostream=STREAM, kmip_version=KV)
+c.requires(INV)
+c.use_variant("any-valid-object")
+c.raises('exceptions.WriteOverflowError', when="len(self.value) >= 4294967296")
+c.ensures("ostream.buffer == old(ostream.buffer) + enc_text_string(self.tag, self.value)", name="spec-encoding")
+c.modifies("ostream.buffer")
 
 # completeness ("accepts every encoding"): ghost witnesses v0, rest0
 c = contract(P + "TextString.read_value", variant="accepts").props('C01')
